@@ -290,7 +290,7 @@ func (g *generator) target(faulty bool) int {
 	alive := g.aliveRefs()
 	dead := g.deadRefs()
 	if faulty && len(dead) > 0 {
-		return g.pick(dead)
+		return g.pickDead(dead)
 	}
 	if g.pct(25) {
 		if rt := g.recycledTargets(); len(rt) > 0 {
@@ -352,7 +352,7 @@ func (g *generator) filter(depth int, allowCached bool) *FSpec {
 		t := g.target(false)
 		if g.pct(15) {
 			if dead := g.deadRefs(); len(dead) > 0 {
-				t = g.pick(dead)
+				t = g.pickDead(dead)
 			}
 		}
 		if g.pct(30) {
@@ -491,6 +491,8 @@ func (g *generator) nextInner() Op {
 			plan = g.orphanPlan()
 		} else if g.pct(35) {
 			plan = g.mixedBatchPlan()
+		} else if g.pct(35) {
+			plan = g.staleTargetPlan()
 		}
 		if len(plan) > 0 {
 			g.plan = plan[1:]
@@ -640,7 +642,7 @@ func (g *generator) nextInner() Op {
 			return op
 		case "remove":
 			if faulty && len(dead) > 0 {
-				return Op{Op: "RemoveEntity", E: g.pick(dead)}
+				return Op{Op: "RemoveEntity", E: g.pickDead(dead)}
 			}
 			if len(alive) == 0 {
 				continue
@@ -653,7 +655,7 @@ func (g *generator) nextInner() Op {
 		case "exchange", "assign":
 			var ref int
 			if faulty && len(dead) > 0 && g.pct(25) {
-				ref = g.pick(dead)
+				ref = g.pickDead(dead)
 				return Op{Op: "Exchange", Api: "World.Exchange", E: ref, Add: g.subset(g.nons, 1), Rem: []int{}, Tgt: -1}
 			}
 			if len(alive) == 0 {
@@ -789,7 +791,7 @@ func (g *generator) nextInner() Op {
 			}
 			if faulty && len(dead) > 0 {
 				c := g.pick(g.x.compNums)
-				return Op{Op: "Set", Api: "World.Set", E: g.pick(dead), C: c, V: 1}
+				return Op{Op: "Set", Api: "World.Set", E: g.pickDead(dead), C: c, V: 1}
 			}
 			if len(sized) == 0 {
 				continue
@@ -810,7 +812,7 @@ func (g *generator) nextInner() Op {
 			if faulty {
 				switch {
 				case len(dead) > 0 && g.pct(30):
-					return Op{Op: "SetRelation", E: g.pick(dead), Rel: g.pick(g.rels), Tgt: -1}
+					return Op{Op: "SetRelation", E: g.pickDead(dead), Rel: g.pick(g.rels), Tgt: -1}
 				case len(alive) > 0:
 					ref := g.pick(alive)
 					// wrong component (missing or not a relation), or dead target
@@ -1233,7 +1235,7 @@ func (g *generator) nextInner() Op {
 			}
 			ref := g.pick(alive)
 			if len(dead) > 0 && faulty {
-				ref = g.pick(dead)
+				ref = g.pickDead(dead)
 			}
 			switch g.rng.Intn(4) {
 			case 0:
@@ -1328,6 +1330,59 @@ func (g *generator) nextInner() Op {
 				}
 				return op
 			}
+			if len(g.x.gfs) < 10 && g.pct(14) && !g.locked() {
+				// deck over (arity, builder method): a filter object is used once (which compiles it), then re-configured
+				// by one builder call, then used again - the re-configuration must take effect, for every arity
+				if filterDeckPos >= len(filterDeck) {
+					filterDeck = filterDeck[:0]
+					for ar := 0; ar <= 12; ar++ {
+						for _, m := range []string{"Exclusive", "With", "Without", "Optional", "WithRelation", "Register"} {
+							if (m == "Optional" && ar == 0) || (m == "WithRelation" && ar < 3) {
+								continue
+							}
+							filterDeck = append(filterDeck, deckCard{m, ar, false})
+						}
+					}
+					// a fixed shuffle; the processes of one run start at different offsets, so that together they play the
+					// whole deck even if each of them only gets through a part of it
+					rand.New(rand.NewSource(7)).Shuffle(len(filterDeck), func(i, j int) { filterDeck[i], filterDeck[j] = filterDeck[j], filterDeck[i] })
+					filterDeckPos = 0
+					if !filterDeckStarted {
+						filterDeckStarted = true
+						filterDeckPos = int(genSeed%16) * len(filterDeck) / 16
+					}
+				}
+				c := filterDeck[filterDeckPos]
+				filterDeckPos++
+				gi := len(g.x.gfs)
+				q := Op{Op: "GQuery", Api: "generic.Filter.Query", Qi: gi, Walk: g.walk(), Tgt: -1}
+				b := Op{Op: "GBuild", Api: "generic.Filter." + c.api, Qi: gi, Tgt: -1}
+				switch c.api {
+				case "With", "Without":
+					b.Ids = g.subset(g.x.compNums, 1)
+				case "Optional":
+					b.Ids = g.subset(seqIDs(c.ar), 2)
+				case "WithRelation":
+					b.Ids = []int{2}
+					if g.pct(50) {
+						b.HasTgt, b.Tgt = true, g.target(false)
+					}
+				}
+				// entities the re-configuration can tell apart: one with exactly the filter's components, one with one more
+				plan := []Op{}
+				if c.ar >= 1 {
+					plan = append(plan, Op{Op: "BuilderNew", Api: "generic.Map.New", Ar: c.ar, Tgt: -1})
+					if c.ar < 12 {
+						plan = append(plan, Op{Op: "BuilderNew", Api: "generic.Map.New", Ar: c.ar + 1, Tgt: -1})
+					}
+				}
+				plan = append(plan, q, b, q)
+				if c.api == "Register" {
+					plan = append(plan, Op{Op: "GBuild", Api: "generic.Filter.Unregister", Qi: gi, Tgt: -1}, q)
+				}
+				g.plan = plan // played back to back: nothing else may change the entities in between
+				return Op{Op: "GNewFilter", Api: "generic.NewFilter", Ar: c.ar}
+			}
 			if len(g.x.gfs) < 6 && g.pct(12) {
 				gi := len(g.x.gfs)
 				ar := 3 + g.rng.Intn(4)
@@ -1418,7 +1473,7 @@ func (g *generator) nextInner() Op {
 			api := apis[g.rng.Intn(len(apis))]
 			var ref int
 			if len(dead) > 0 && (faulty || g.pct(50)) {
-				ref = g.pick(dead)
+				ref = g.pickDead(dead)
 			} else if len(alive) > 0 {
 				ref = g.pick(alive)
 			} else {
@@ -1488,6 +1543,11 @@ type deckCard struct {
 var (
 	deck    []deckCard
 	deckPos int
+	// deck of (builder method, arity) cells for generic filters that are re-configured after use
+	filterDeck        []deckCard
+	filterDeckPos     int
+	filterDeckStarted bool
+	genSeed           int64 // seed of this generator process (set by cmdGen)
 )
 
 func (g *generator) buildDeck() {
@@ -1573,7 +1633,7 @@ func (g *generator) playCard(alive []int) (Op, bool) {
 			// a stale handle (its id may have been recycled since): every position of Get must reject it
 			deckPos++
 			// prefer a stale handle whose id is in use again
-			ref := g.pick(dead)
+			ref := g.pickDead(dead)
 			for _, d := range dead {
 				for _, a := range alive {
 					if g.x.issued[d].ID() == g.x.issued[a].ID() && g.pct(50) {
@@ -1808,4 +1868,71 @@ func (g *generator) mixedBatchPlan() []Op {
 		op.Q, op.Api, op.Walk = true, "Relations.ExchangeBatchQ", g.walk()
 	}
 	return append(plan, op)
+}
+
+// pickDead chooses a stale handle, preferring those whose id is in use again (by an entity that is a relation
+// target, if there is one): the handles that only the generation tells apart from an alive entity.
+func (g *generator) pickDead(dead []int) (res int) {
+	res = dead[g.rng.Intn(len(dead))]
+	defer func() { recover() }()
+	if !g.pct(65) {
+		return res
+	}
+	alive := g.aliveRefs()
+	byID := map[uint32]int{}
+	for _, a := range alive {
+		byID[uint32(g.x.issued[a].ID())] = a
+	}
+	targets := map[uint32]bool{}
+	for _, c := range alive {
+		if rel := g.relOf(g.maskOf(c)); rel >= 0 {
+			if t := g.x.w.Relations().Get(g.x.issued[c], g.x.idOf(rel)); !t.IsZero() {
+				targets[uint32(t.ID())] = true
+			}
+		}
+	}
+	recycled, recycledTargets := []int{}, []int{}
+	for _, d := range dead {
+		id := uint32(g.x.issued[d].ID())
+		if _, ok := byID[id]; ok {
+			recycled = append(recycled, d)
+			if targets[id] {
+				recycledTargets = append(recycledTargets, d)
+			}
+		}
+	}
+	switch {
+	case len(recycledTargets) > 0 && g.pct(60):
+		return recycledTargets[g.rng.Intn(len(recycledTargets))]
+	case len(recycled) > 0:
+		return recycled[g.rng.Intn(len(recycled))]
+	}
+	return res
+}
+
+// staleTargetPlan: an entity dies, its id is recycled, the new owner becomes a relation target (so every per-id
+// record says "target"), and then the STALE handle is offered as a target through every entry point that takes one.
+// Each of these calls is illegal (dead target) and must be rejected.
+func (g *generator) staleTargetPlan() []Op {
+	if len(g.rels) == 0 {
+		return nil
+	}
+	rel := g.pick(g.rels)
+	stale := len(g.x.issued)
+	owner := stale + 1
+	child := stale + 2
+	plan := []Op{{Op: "NewEntity", Api: "World.NewEntity", Ids: []int{}}, {Op: "RemoveEntity", E: stale},
+		{Op: "NewEntity", Api: "World.NewEntity", Ids: []int{}},
+		{Op: "BuilderNew", Api: "Builder.New", Ids: []int{rel}, HasRel: true, Rel: rel, HasTgt: true, Tgt: owner}}
+	tries := []Op{
+		{Op: "NewBatch", Api: "Builder.NewBatch", Ids: []int{rel}, N: 2, HasRel: true, Rel: rel, HasTgt: true, Tgt: stale},
+		{Op: "NewBatch", Api: "Builder.NewBatchQ", Ids: []int{rel}, N: 2, Q: true, Walk: g.walk(), HasRel: true, Rel: rel, HasTgt: true, Tgt: stale},
+		{Op: "NewBatch", Api: "Builder.NewBatch", Ids: []int{rel}, Vals: g.vals([]int{rel}), WithV: true, N: 1, HasRel: true, Rel: rel, HasTgt: true, Tgt: stale},
+		{Op: "BuilderNew", Api: "Builder.New", Ids: []int{rel}, HasRel: true, Rel: rel, HasTgt: true, Tgt: stale},
+		{Op: "BuilderNew", Api: "Builder.New", Ids: []int{rel}, Vals: g.vals([]int{rel}), WithV: true, HasRel: true, Rel: rel, HasTgt: true, Tgt: stale},
+		{Op: "SetRelation", E: child, Rel: rel, Tgt: stale},
+		{Op: "BatchSetRelation", Api: "Batch.SetRelation", F: &FSpec{K: "all", Ids: []int{rel}, Tgt: -1}, Rel: rel, Tgt: stale},
+	}
+	g.rng.Shuffle(len(tries), func(i, j int) { tries[i], tries[j] = tries[j], tries[i] })
+	return append(plan, tries[:3]...)
 }
